@@ -122,6 +122,11 @@ impl TransportCost for DynamicTransportCost {
     fn duration(&self, route: &Route, from: Location, to: Location, travel_time: TravelTime) -> Duration {
         let duration = self.inner.duration(route, from, to, travel_time);
 
+        // NOTE a negative duration marks an unreachable location, reserved time must not turn it into a reachable one
+        if duration < 0. {
+            return duration;
+        }
+
         let time_window = match travel_time {
             TravelTime::Arrival(arrival) => TimeWindow::new(arrival - duration, arrival),
             TravelTime::Departure(departure) => TimeWindow::new(departure, departure + duration),
